@@ -110,6 +110,8 @@ def check(ctx):
             rep.add('R1', fb.site(r), 'strict lookup raises KeyError for unknown ids', okg, expected=f'[d[{t}] for {t} in {ids_b}]', found=u(v), stmt='strict lookup')
         else:
             raise Undecided(f'genomes_by_id: return not controlled by strict: {u(r)}')
+    rep.account_returns('R1', fb, rets_b, 'lookup list')
+    rep.account_returns('R1', fi, rets, 'matched (genomes, indices) pair')
     rep.require(dname is not None, 'genomes_by_id: non-strict lookup dict not identified')
     dd = assigns_to(fb.node, dname)
     okd = len(dd) == 1 and isinstance(def_value(dd[0]), ast.Call) and m.resolve_call(fb, def_value(dd[0])) == f'{MOD}._map_ids_to_genomes' \
